@@ -194,7 +194,8 @@ class FalsyStrictUndefined(StrictUndefined):
         return False
 
     def __eq__(self, other: object) -> bool:
-        return other is False
+        # Same as the default undefined type, so membership tests agree with it.
+        return isinstance(other, Undefined) or other is None
 
 
 def is_undefined(obj: object) -> TypeGuard[Undefined]:
